@@ -2,7 +2,7 @@
 from engines.arena_prop import run_arena_property
 
 def run(ctx):
-    return run_arena_property(ctx, ["BumpProof.Props.C15"],
+    return run_arena_property(ctx, ["BumpProof.Props.C15", "BumpProof.Props.Hist2@C15"],
         runs_quick=[('prepared', 200, 100)],
         runs_thorough=[('prepared', 8000, 200)],
         fields=(0, 2, 5, 6), extra_oracles=(),
